@@ -68,6 +68,12 @@ DiagImageIsMinImage(c) ==
        /\ DiagImage(c.H, v, c.ppp) \in MinImage(c.H, v, c.ppp)
        /\ DiagTie(c.H, v, c.ppp) <=> HasTie(c.H, v, c.ppp)
 
+\* wrapped image of v: fractional coordinates along the axes in `mask` brought into [0, 1)
+WrapInto(H, v, mask) ==
+  LET fn == FracNum(H, v)
+      n  == [k \in 1..Len(v) |-> IF mask[k] = 1 THEN FloorDiv(fn[k], FracDen(H)) ELSE 0]
+  IN  VSub(v, VecMat(n, H))
+
 \* neighbour list of particle i in frame o as the routine sees it (truncated to max_neighbors)
 NbOf(c, o, i) == LET lst == c.nb[o + 1][i] IN SubSeq(lst, 1, Min2(Len(lst), c.nmax))
 
@@ -297,16 +303,17 @@ LogIsOriginZeroRestriction(c, variant, st) ==
                                 /\ VarQX(AlgRowX(st, k)) = <<0, 1>>
      /\ AlgRowX(st, c.T - 1) = RowX(c, PDs(c, "lin", c.T - 1))
 \* wrapped = unwrapped when no displacement reaches half a box length
-SmallDisp(c) ==
+SmallDisp(c) ==          \* in fractional coordinates (orthogonal cell: |dx_k| < L_k / 2)
   \A f, g \in 1..c.T : \A i \in 1..c.N : \A k \in 1..c.d :
-     c.ppp[k] = 1 => 2 * Abs(c.xu[g][i][k] - c.xu[f][i][k]) < BoxLen(c, k)
-WrapConsistent(c) ==      \* x is xu modulo the periodic cell vectors (orthogonal cells)
+     c.ppp[k] = 1 => 2 * Abs(FracNum(c.H, VSub(c.xu[g][i], c.xu[f][i]))[k]) < FracDen(c.H)
+WrapConsistent(c) ==      \* x is xu modulo the cell vectors of the periodic axes
   \A f \in 1..c.T : \A i \in 1..c.N : \A k \in 1..c.d :
-     IF c.ppp[k] = 1 THEN (c.x[f][i][k] - c.xu[f][i][k]) % BoxLen(c, k) = 0
-     ELSE c.x[f][i][k] = c.xu[f][i][k]
+     LET dn == FracNum(c.H, VSub(c.x[f][i], c.xu[f][i]))[k] IN
+     IF c.ppp[k] = 1 THEN dn % FracDen(c.H) = 0 ELSE dn = 0
 Strip(pd) == [pd EXCEPT !.mtie = FALSE]
+WrapRelApplies(c) == WrapConsistent(c) /\ SmallDisp(c) /\ \E k \in 1..c.d : c.ppp[k] = 1
 WrappedEqualsUnwrapped(c) ==
-  (IsDiagonal(c.H) /\ WrapConsistent(c) /\ SmallDisp(c) /\ \E k \in 1..c.d : c.ppp[k] = 1) =>
+  WrapRelApplies(c) =>
      \A o, e \in 0..(c.T - 1) : o < e =>
         /\ Strip(PairData([c EXCEPT !.mode = "x"], o, e, TRUE)) = Strip(PairData([c EXCEPT !.mode = "xu"], o, e, TRUE))
         /\ ~MTie([c EXCEPT !.mode = "x"], o, e)
